@@ -225,7 +225,8 @@ def gen_spec(rng, audit_types=("CARD_COMPARISON", "ONEAUDIT", "POLLING"), n_cont
             mvrs[str(i)] = {"kind": "votes", "votes": v}
     sn = {"kind": "sha256", "seed": rng.randrange(10 ** 12)} if rng.random() < 0.6 else {"kind": "explicit", "nums": None}
     return {"use_style": use_style, "max_cards": max_cards, "contests": contests, "cards": cards, "phantom_pool": ph_pool,
-            "mvrs": mvrs, "sample_nums": sn, "sn_mode": rng.choice(("list_order", "reverse", "shuffled", "contest_first")), "sn_step": rng.choice((1, 1, 17, 0.5)), **({"sn_base": 2 ** 255 + 12345, "sn_step": 2 ** 128} if rng.random() < 0.2 else {})}
+            "mvrs": mvrs, "sample_nums": sn, "direct_supermajority": rng.random() < 0.5,
+            "sn_mode": rng.choice(("list_order", "reverse", "shuffled", "contest_first")), "sn_step": rng.choice((1, 1, 17, 0.5)), **({"sn_base": 2 ** 255 + 12345, "sn_step": 2 ** 128} if rng.random() < 0.2 else {})}
 
 
 def force_uniform_pool(rng, es):
@@ -347,12 +348,22 @@ class Sim:
     def make_phantoms(self):
         CVR = self.L["CVR"]
         tp, pool = self.spec["phantom_pool"]
+        self.real_list = self.cvr_list   # the caller's own list object (must not be touched by make_phantoms)
         self.cvr_list, self.n_phantoms = CVR.make_phantoms(audit=self.audit, contests=self.contests, cvr_list=self.cvr_list,
                                                            prefix="phantom-1-", tally_pool=tp, pool=pool)
         return self.cvr_list, self.n_phantoms
 
     def make_assertions(self):
         self.L["Assertion"].make_all_assertions(self.contests)
+        if self.spec.get("direct_supermajority"):
+            # the super-majority constructor called the way the library's own test calls it: the contest carries the share
+            C = self.L["Contest"]
+            for cid, con in self.contests.items():
+                if con.choice_function == C.SOCIAL_CHOICE_FUNCTION.SUPERMAJORITY:
+                    losers = [c for c in con.candidates if c not in con.winner]
+                    con.assertions = self.L["Assertion"].make_supermajority_assertion(
+                        contest=con, winner=con.winner[0], loser=losers, test=con.test, estim=con.estim, bet=con.bet,
+                        test_kwargs=con.test_kwargs)
         # description of every assertion for the reference assorters
         self.desc = {}
         for cid, con in self.contests.items():
